@@ -69,6 +69,38 @@ impl ShadowKind {
     }
 }
 
+/// Exact distinct counter for 64-bit hashes that stays compact for hundreds of millions of
+/// insertions: an append-only vector that is sorted and deduplicated whenever it has doubled.
+#[derive(Default, Clone)]
+pub struct Distinct {
+    v: Vec<u64>,
+    clean: usize,
+}
+impl Distinct {
+    pub fn insert(&mut self, x: u64) {
+        self.v.push(x);
+        if self.v.len() >= self.clean * 2 + (1 << 20) {
+            self.compact();
+        }
+    }
+    pub fn compact(&mut self) {
+        self.v.sort_unstable();
+        self.v.dedup();
+        self.clean = self.v.len();
+    }
+    pub fn extend(&mut self, o: &Distinct) {
+        self.v.extend_from_slice(&o.v);
+        if self.v.len() >= self.clean * 2 + (1 << 20) {
+            self.compact();
+        }
+    }
+    pub fn len(&self) -> usize {
+        let mut c = self.clone();
+        c.compact();
+        c.v.len()
+    }
+}
+
 #[derive(Default, Clone)]
 pub struct Stats {
     pub steps: u64,
@@ -76,9 +108,9 @@ pub struct Stats {
     pub ops: BTreeMap<(&'static str, &'static str, &'static str), u64>,
     pub faults: BTreeMap<&'static str, u64>,
     pub probes: BTreeMap<&'static str, u64>,
-    pub distinct: BTreeSet<u64>,
-    pub states: BTreeSet<u64>,
-    pub schedules: BTreeSet<u64>,
+    pub distinct: Distinct,
+    pub states: Distinct,
+    pub schedules: Distinct,
 }
 impl Stats {
     pub fn fault(&mut self, k: &'static str) {
@@ -99,9 +131,9 @@ impl Stats {
         for (k, v) in &o.probes {
             *self.probes.entry(k).or_insert(0) += v;
         }
-        self.distinct.extend(o.distinct.iter().copied());
-        self.states.extend(o.states.iter().copied());
-        self.schedules.extend(o.schedules.iter().copied());
+        self.distinct.extend(&o.distinct);
+        self.states.extend(&o.states);
+        self.schedules.extend(&o.schedules);
     }
 }
 
@@ -163,6 +195,7 @@ pub fn slot_of(id: NodeId) -> usize {
 }
 
 pub fn err_class(name: &str) -> &'static str {
+    let name = name.split('|').next().unwrap_or(name);
     if name.contains("Removed") {
         "removed"
     } else if name.contains("Ancestor") {
@@ -202,7 +235,8 @@ pub fn raw_insert<T>(arena: &mut Arena<T>, kind: Kind, checked: bool, a: NodeId,
         },
         Ok(Err(e)) => Raw {
             class: Class::Err,
-            text: format!("{:?}", e),
+            // Debug name of the variant, then its Display text
+            text: format!("{:?}|{}", e, e),
             ids: vec![],
         },
         Err(p) => Raw {
@@ -362,8 +396,19 @@ impl<T: Payload> World<T> {
             let before = out.viols.len();
             self.check_invariants(&mut out.viols);
             let inv_ok = out.viols.len() == before;
+            if !inv_ok {
+                // a malformed or cyclic forest: no further call is issued on this arena
+                self.diverged = true;
+            }
             if !self.diverged {
+                let b2 = out.viols.len();
                 self.cmp_forest(op, out.class, &mut out.viols);
+                if out.viols.len() != b2 {
+                    // the real state is not the one the model is in: the model cannot go on
+                    self.diverged = true;
+                }
+            }
+            if !self.diverged {
                 self.check_tombs(&mut out.viols);
                 self.check_c06(&mut out.viols);
                 self.check_ledger_live(&mut out.viols);
@@ -423,9 +468,6 @@ impl<T: Payload> World<T> {
                 .entry((op.name(), "-", if out.viols.is_empty() { "ok" } else { "viol" }))
                 .or_insert(0) += 1;
         }
-        if !out.viols.is_empty() {
-            self.diverged = true;
-        }
         out
     }
 
@@ -457,6 +499,7 @@ impl<T: Payload> World<T> {
                     if !node.is_removed() {
                         h.str(&node.get().canon());
                     }
+                    h.str(&id.to_string());
                 }
                 None => h.u8(0),
             }
@@ -547,7 +590,8 @@ impl<T: Payload> World<T> {
                         "occupied_slot_handed_out",
                         format!("allocation returned slot {} which holds live key {}", slot, occ),
                     ));
-                    return false;
+                    self.diverged = true;
+            return false;
                 }
                 _ => {}
             }
@@ -557,7 +601,8 @@ impl<T: Payload> World<T> {
                     "slot_not_free",
                     format!("allocation returned slot {} which is not in the free set", slot),
                 ));
-                return false;
+                self.diverged = true;
+            return false;
             }
             if self.m.retired.contains(&slot) {
                 // the model only *inferred* retirement; a slot that comes back was merely withheld
@@ -566,7 +611,8 @@ impl<T: Payload> World<T> {
                     "slot_withheld_then_reused",
                     format!("slot {} was not offered while free and is handed out later", slot),
                 ));
-                return false;
+                self.diverged = true;
+            return false;
             }
             if count_after != count_before {
                 viols.push(viol(
@@ -621,9 +667,11 @@ impl<T: Payload> World<T> {
                 "slot_out_of_sequence",
                 format!("allocation returned slot {} with {} slots known", slot, known),
             ));
+            self.diverged = true;
             return false;
         }
         if !ok {
+            self.diverged = true;
             return false;
         }
         let serial = self.arena.get(id).and_then(|n| {
@@ -720,6 +768,10 @@ impl<T: Payload> World<T> {
                     format!("{}: arena != its twin ({:?}) after the same call", what, kind),
                 ));
             }
+        }
+        // a twin that has gone out of step is reported once and then dropped
+        if viols.iter().any(|v| v.kind == "twin_result_differs" || v.kind == "twin_arena_differs") {
+            self.shadow = None;
         }
     }
 
@@ -1158,8 +1210,8 @@ impl<T: Payload> World<T> {
         let raw = raw_insert(&mut self.arena, kind, checked, ida, idb);
         out.class = raw.class;
         if raw.class == Class::Err {
-            // the error (its class, not the variant's name) is part of the event log
-            self.log.str(err_class(&raw.text));
+            // the error is part of the event log (compared between builds of the same source)
+            self.log.str(&raw.text);
         }
         let name = Op::Insert { kind, checked, a, b }.name();
         let what = format!("{}({})", name, rel.name());
